@@ -3,7 +3,7 @@ C19 — Limiter bounds concurrency, runs every task once and survives panics.  O
 property theorems and non-vacuity examples live here; helper lemmas are in
 `Golib/Proof/C19*.lean`.
 -/
-import Golib.Model.C19Lim
+import Golib.Proof.C19Fill
 import Golib.Gen.FactsC19
 
 namespace Golib.C19
@@ -31,5 +31,80 @@ theorem c19_facts :
 theorem c19_default_limit (limit : Int) :
     (newLimiter limit).n = (if limit < 1 then 3 else limit.toNat) ∧ 1 ≤ (newLimiter limit).n := by
   by_cases h : limit < 1 <;> simp [newLimiter, limitOf, h] <;> omega
+
+/-- `c19_bound`: in every reachable state — any limit, any number of submissions from
+any number of goroutines, any blocking / finishing / panicking pattern, any schedule —
+the number of functions inside `fn` is at most the number of tokens in the channel,
+which is at most the capacity `n` (= limit, or 3 for limit < 1; n ≥ 1). -/
+theorem c19_bound (limit : Int) (s : St) (h : Reachable limit s) :
+    s.running ≤ s.k ∧ s.k ≤ s.n ∧ s.n = limitOf limit ∧ 1 ≤ s.n := by
+  have hi := Inv.of_reachable h
+  refine ⟨?_, hi.hkn, hi.hn, ?_⟩
+  · rw [hi.hk]
+    exact List.countP_mono_left fun t _ ht => by
+      have : t.pc = .running := by simpa using ht
+      simp [this, Pc.holdsToken]
+  · rw [hi.hn]; exact (c19_default_limit limit).2
+
+/-- `c19_exactly_once`: every submitted function has been entered exactly once as soon
+as it is running or later, and never before; in particular never twice. -/
+theorem c19_exactly_once (limit : Int) (s : St) (h : Reachable limit s) :
+    ∀ t ∈ s.tasks, t.starts = (if 4 ≤ t.pc.rank then 1 else 0) ∧ t.starts ≤ 1 := by
+  intro t ht
+  have := ((Inv.of_reachable h).htasks t ht).starts
+  refine ⟨this, ?_⟩
+  rw [this]; split <;> omega
+
+/-- `c19_wait`: a `Wait()` call that has returned: every task whose `Go` had returned
+when `Wait()` was called (`w.before`, recorded by the `waitCall` step) has left its
+function and passed `w.Done()` (rank ≥ 7).  `Wait()` itself returns only at `wg = 0`
+(guard of `waitRet`). -/
+theorem c19_wait (limit : Int) (s : St) (h : Reachable limit s) :
+    ∀ w ∈ s.waiters, w.returned = true → ∀ i ∈ w.before,
+      ∃ t, s.tasks[i]? = some t ∧ 7 ≤ t.pc.rank := by
+  intro w hw hr i hi'
+  obtain ⟨t, ht, _, h7⟩ := (Inv.of_reachable h).hwait w hw i hi'
+  exact ⟨t, ht, h7 hr⟩
+
+/-- `c19_no_leak`: (1) the token count is exactly the number of tasks between their
+send and their receive; (2) no cleanup ever panics (a panicking function returns its
+token like any other); (3) progress: every task that has not exited can take its
+next step unless it is a submission facing a full channel — and the channel is full
+only when `n` tasks hold tokens; (4) from every reachable state, the free slots can all
+be filled: a state with `n - k` more functions inside is reachable — in particular
+after any number of panics, once `k = 0`, `n` functions run simultaneously. -/
+theorem c19_no_leak (limit : Int) (s : St) (h : Reachable limit s) :
+    s.k = s.tasks.countP (fun t => t.pc.holdsToken) ∧
+    (∀ t ∈ s.tasks, t.pc ≠ .cleanupPanicked) ∧
+    (∀ i t, s.tasks[i]? = some t → t.pc ≠ .exited → (t.pc = .new → s.k < s.n) →
+        (s.adv i).isSome = true) ∧
+    (∃ s', Reachable limit s' ∧ s'.running = s.running + (s.n - s.k)) := by
+  have hi := Inv.of_reachable h
+  refine ⟨hi.hk, fun t ht => (hi.htasks t ht).noCleanupPanic,
+    fun i t ht hne hnew => hi.progress ht hne hnew, ?_⟩
+  have hkn := hi.hkn
+  obtain ⟨ls, s', hr, hrun, _, _⟩ := fill_slots (s.n - s.k) s (by omega)
+  exact ⟨s', h.extend hr, hrun⟩
+
+/-- `c19_handler`: the handler (or the fallback print) has received exactly `[v]` on
+behalf of a task iff the task's function panicked with `v` and the outer deferred
+function has passed its `recover()` check; nothing otherwise. -/
+theorem c19_handler (limit : Int) (s : St) (h : Reachable limit s) :
+    ∀ t ∈ s.tasks, t.handled =
+      (match t.outcome with
+       | .ok => []
+       | .panic v => if 6 ≤ t.pc.rank then [.val v] else []) := by
+  intro t ht
+  exact ((Inv.of_reachable h).htasks t ht).handled
+
+/-- Non-vacuity: a concrete reachable state with limit 1 — task 0 (panicking with 7) has
+exited and its value reached the handler, task 1 is inside its function, task 2 waits
+for a token. -/
+example : ∃ s, Reachable 1 s ∧ s.running = 1 ∧ s.k = 1 ∧
+    s.tasks.map (·.pc) = [.exited, .running, .new] ∧
+    s.tasks.map (·.handled) = [[.val 7], [], []] := by
+  refine ⟨_, ⟨[.submit (.panic 7), .adv 0, .adv 0, .adv 0, .adv 0, .submit .ok, .submit .ok,
+    .adv 0, .adv 0, .adv 0, .adv 0, .adv 1, .adv 1, .adv 1, .adv 1], rfl⟩, ?_⟩
+  decide
 
 end Golib.C19
